@@ -141,6 +141,12 @@ func (w *WriteThrough) roots(fn *ssa.Function, v ssa.Value, depth int, seen map[
 					}
 				}
 			}
+			if sv := strongUpdate(x); sv != nil {
+				// the field was assigned just before in the same block with no call in between:
+				// the load yields exactly that value
+				add(w.roots(fn, sv, depth+1, seen))
+				break
+			}
 			if fa, ok := x.X.(*ssa.FieldAddr); ok {
 				fld := fieldOf(fa.X.Type(), fa.Field)
 				// stores to the same field anywhere in this function
@@ -462,4 +468,38 @@ var _ = types.Typ
 var externalFresh = map[string]bool{
 	"errors.New": true, "fmt.Errorf": true, "fmt.Sprintf": true, "github.com/pkg/errors.New": true,
 	"github.com/pkg/errors.Wrap": true, "github.com/pkg/errors.Wrapf": true, "github.com/pkg/errors.Errorf": true,
+}
+
+// strongUpdate: ld loads base.f and the same block stores to base.f (same SSA base value, same
+// field) earlier with no call or other store through an unknown address in between; returns the stored value.
+func strongUpdate(ld *ssa.UnOp) ssa.Value {
+	fa, ok := ld.X.(*ssa.FieldAddr)
+	if !ok {
+		return nil
+	}
+	b := ld.Block()
+	idx := -1
+	for i, in := range b.Instrs {
+		if in == ssa.Instruction(ld) {
+			idx = i
+		}
+	}
+	for i := idx - 1; i >= 0; i-- {
+		switch y := b.Instrs[i].(type) {
+		case *ssa.Store:
+			if f2, ok := y.Addr.(*ssa.FieldAddr); ok && f2.X == fa.X && f2.Field == fa.Field {
+				return y.Val
+			}
+			if f2, ok := y.Addr.(*ssa.FieldAddr); ok && f2.Field != fa.Field {
+				continue // a different field
+			}
+			return nil
+		case ssa.CallInstruction:
+			if bi, ok := y.Common().Value.(*ssa.Builtin); ok && (bi.Name() == "len" || bi.Name() == "cap") {
+				continue
+			}
+			return nil
+		}
+	}
+	return nil
 }
